@@ -120,12 +120,21 @@ def inject(rng, lines):
         out.append(("temp-after-call", new, ("invalid-use-after-call", {i + 3}, t)))
     # 5: never-assigned register read (in main)
     acc0 = L[main_start + 1][0].split()[1].rstrip(",")
-    t = rng.choice(conform.TEMPS)
-    for form in (f"add {acc0}, {acc0}, {t}", f"addi {t}, {t}, 1"):
-        new = ins(main_start + 2, form)
-        if form.startswith("addi"):
-            new = new[:main_start + 3] + [(f"    add {acc0}, {acc0}, {t}", "injected")] + new[main_start + 3:]
-        out.append(("never-assigned", new, ("invalid-use-before-assignment", {main_start + 2}, t)))
+    text = "\n".join(x for x, _ in L)
+    # a temporary, a saved register or an argument register beyond the program's own (a0, a1):
+    # none of them has a value at the start of the program; chosen among those the program never
+    # mentions, so the injected read is the only one
+    pools = [conform.TEMPS, [f"s{i}" for i in range(12)], [f"a{i}" for i in range(2, 8)]]
+    for pool in pools:
+        free = [x for x in pool if not re.search(rf"\b{x}\b", text)]
+        if not free:
+            continue
+        t = rng.choice(free)
+        for form in (f"add {acc0}, {acc0}, {t}", f"addi {t}, {t}, 1"):
+            new = ins(main_start + 2, form)
+            if form.startswith("addi"):
+                new = new[:main_start + 3] + [(f"    add {acc0}, {acc0}, {t}", "injected")] + new[main_start + 3:]
+            out.append(("never-assigned", new, ("invalid-use-before-assignment", {main_start + 2}, t)))
     # 6: assignment nobody reads
     sites = find(L, lambda t, tag: tag in ("arith", "use-result", "init-acc"))
     for i in rng.sample(sites, min(3, len(sites))):
